@@ -80,15 +80,29 @@ def run_comb(case, ctx):
     els = case.get("els")
     if els:
         els = [els[i % len(els)] for i in range(n)]
-        key2 = lambda c: len(c)
+        elw = {"a": 0, "b": 1, "c": 2}
+        key2 = len if case["key"] in ("len", "max") else (lambda c: sum(elw[x] for x in c))
         try:
             with FuelSession(400 * (2 ** n) * (n + 2) + 5000):
-                out2 = list(itertools.islice(G.sorted_combinations(els, key2), limit))
+                out2 = list(itertools.islice(G.sorted_combinations(els, key2, yield_key=yk), limit))
         except OutOfFuel:
             ctx.fail("sorted_combinations/non-terminating", "ran out of fuel for n=%d" % n)
             return
+        except Exception as e:  # noqa
+            ctx.fail("sorted_combinations/exception-%s" % type(e).__name__, "raised %r for (mutually comparable, repeated) elements %r" % (e, els))
+            return
         exp = sorted(tuple(els[i] for i in c) for c in brute)
-        ctx.need(sorted(tuple(o) for o in out2) == exp, "sorted_combinations/repeated-elements-wrong", lambda: "elements %r: %r" % (els, out2[:6]))
+        try:
+            combs2 = [tuple(o[0]) for o in out2] if yk else [tuple(o) for o in out2]
+        except TypeError:
+            ctx.fail("sorted_combinations/shape", "output elements have the wrong shape: %r" % (out2[:3],))
+            return
+        if not ctx.need(sorted(combs2) == exp, "sorted_combinations/repeated-elements-wrong", lambda: "elements %r: %r" % (els, out2[:6])):
+            return
+        keys2 = [key2(c) for c in combs2]
+        ctx.need(keys2 == sorted(keys2), "sorted_combinations/keys-not-non-decreasing", lambda: "elements %r: key sequence %r" % (els, keys2))
+        if yk:
+            ctx.need([o[1] for o in out2] == keys2, "sorted_combinations/yielded-key-wrong", "yielded key differs from key(comb) (repeated elements)")
         ctx.label("repeated-elements")
 
 
